@@ -204,6 +204,20 @@ def check_table(df, target, kind, args, step):
             '%s n_samples %d times %s: missing %s unexpected %s counts %s' % (
                 kind, n, args['times'], missing, extra,
                 sorted(set(cells.values()))), step)
+    # a time requested twice gives two measurements, i.e. two noise terms:
+    # with continuous noise they are never the same number
+    if any(m_ > 1 for m_ in mult.values()):
+        seen = {}
+        for _, row in meas.iterrows():
+            key = (int(row['ID']), float(row['Time']), row['Observable'],
+                   float(row['Value']))
+            seen[key] = seen.get(key, 0) + 1
+        same = sorted(k for k, c in seen.items() if c > 1)
+        if same:
+            raise Violation(
+                'table.cells', 'replicates_share_noise',
+                '%s times %s: the replicate measurements %s carry the same '
+                'value' % (kind, args['times'], same[:3]), step)
     # time order within each (ID, observable)
     for (i, o), grp in meas.groupby(['ID', 'Observable'], sort=False):
         ts = grp['Time'].tolist()
@@ -582,6 +596,9 @@ def generate(rng, index, tier):
               for _ in range(rng.randint(1, 4))]
         if rng.random() < 0.8:
             ts = list(dict.fromkeys(ts))
+        if rng.random() < 0.25:
+            # a time requested twice (replicate measurements)
+            ts.insert(rng.randint(0, len(ts)), rng.choice(ts))
         a = {'parameters': _vals(rng, n_mech) + _vals(
             rng, n_par - n_mech, 0.05, 0.4),
             'pop_parameters': pop_point(),
